@@ -46,6 +46,9 @@ TRANSFORMS = {
     "raw-from_dict": "probs(Circuit.from_dict(c.raw))",
     "raw-from_dict-twice": "probs(Circuit.from_dict(Circuit.from_dict(c.raw).raw))",
     "qasm": "probs(Circuit.from_qasm(c.to_qasm()))",
+    "rearrange1": "probs(__import__('qibo.transpiler.optimizer', fromlist=['Rearrange']).Rearrange(max_qubits=1)(c))",
+    "rearrange2": "probs(__import__('qibo.transpiler.optimizer', fromlist=['Rearrange']).Rearrange(max_qubits=2)(c))",
+    "preprocessing": "probs(__import__('qibo.transpiler.optimizer', fromlist=['Preprocessing']).Preprocessing(connectivity=line(n + 2))(c))",
     "router-sabre": "routed_probs(__import__('qibo.transpiler.router', fromlist=['Sabre']).Sabre(connectivity=line(n)), c)",
     "router-shortestpaths": "routed_probs(__import__('qibo.transpiler.router', fromlist=['ShortestPaths']).ShortestPaths(connectivity=line(n)), c)",
     "router-star": "routed_probs(__import__('qibo.transpiler.router', fromlist=['StarConnectivityRouter']).StarConnectivityRouter(connectivity=star(5)), c)",
